@@ -4,6 +4,7 @@ import Driver.ChargingIO
 import Driver.ConvIO
 import Driver.DiamPrimIO
 import Driver.ConfigIO
+import Driver.BerIO
 /-
   Line-protocol driver: one operation per input line, one canonical line per operation.
   The first token selects the stream (model); stateful streams keep their state in `DState`.
@@ -23,6 +24,7 @@ def step (s : DState) (line : String) : DState × String :=
   | "rf" :: t => let (a, o) := rfOp s.rf t; ({ s with rf := a }, o)
   | "chf" :: t => let (a, o) := chfOp noSplit s.chf t; ({ s with chf := a }, o)
   | "conv" :: t => (s, convOp t)
+  | "ber" :: t => (s, berOp t)
   | "config" :: t => (s, configOp t)
   | "diam" :: t => (s, diamOp t)
   | "abmfjudge" :: t => (s, abmfJudge t)
